@@ -96,6 +96,7 @@ func main() {
 		known    = flag.String("known", "", "comma separated open known-finding ids")
 		wall     = flag.Duration("wall", 0, "wall-clock limit for exploration")
 		list     = flag.Bool("list", false, "list harness functions and exit")
+		maxDepth = flag.Int("maxdepth", 300, "call depth bound (exceeding it is reported as unbounded recursion)")
 		params   = flag.String("params", "", "comma separated name=int harness parameters (verifParam)")
 	)
 	flag.Parse()
@@ -258,7 +259,7 @@ func main() {
 	res.ExpectedLabels = expectedLabels(hf, map[*ssa.Function]bool{})
 
 	opts := Options{Unwind: *unwind, InstrBudget: *budget, MaxAlloc: *maxAlloc, TimeoutMs: *timeout, Solver: *solver,
-		Workers: *workers, MaxPaths: *maxPaths, Models: *models, MaxViol: *maxViol, LogSMT: *logSMT, CrossCheck: *cross, WallLimit: *wall, Params: paramMap}
+		Workers: *workers, MaxPaths: *maxPaths, Models: *models, MaxViol: *maxViol, LogSMT: *logSMT, CrossCheck: *cross, WallLimit: *wall, Params: paramMap, MaxDepth: *maxDepth}
 	if *vector != "" {
 		if err := json.Unmarshal([]byte(*vector), &opts.Concrete); err != nil {
 			fatal("vector: %v", err)
@@ -279,7 +280,7 @@ func main() {
 		res.Status = "broken"
 	}
 	for k := range res.PathsOther {
-		if strings.HasPrefix(k, "unwind") || strings.HasPrefix(k, "budget") {
+		if strings.HasPrefix(k, "unwind") || strings.HasPrefix(k, "budget") || strings.HasPrefix(k, "recursion") {
 			res.Status = "broken"
 		}
 	}
